@@ -8,6 +8,7 @@ from emu_sv.lindblad_operator import RydbergLindbladian
 
 from pulser.backend import Results, Observable, State, EmulationConfig
 from emu_base import SequenceData, get_max_rss
+from emu_base import _verif
 from emu_base.utils import observable_compat_kwargs
 
 from emu_sv.state_vector import StateVector
@@ -127,6 +128,17 @@ class SVBackendImpl:
             raise NotImplementedError(
                 "Initial state and state preparation error can not be together."
             )
+        if _verif.enabled():
+            _verif.emit(
+                "sv_new",
+                n=self.nqubits,
+                nsteps=self.nsteps,
+                target_times=self.target_times,
+                stepper=self.stepper.__name__,
+                qubit_ids=[str(q) for q in data.qubit_ids],
+                dark=self.well_prepared_qubits_filter,
+                n_lindblad=len(self.pulser_lindblads),
+            )
 
     def init_dark_qubits(self) -> None:
         if self._data.state_prep_error > 0.0:
@@ -176,6 +188,14 @@ class SVBackendImpl:
             self._config.krylov_tolerance,
             self.pulser_lindblads,
         )
+        if _verif.enabled():
+            _verif.emit(
+                "sv_evolve",
+                k=step_idx,
+                dt=dt,
+                tq=self.target_times[step_idx],
+                norm=float(self.state.data.norm()),
+            )
 
     def _is_evaluation_time(
         self,
@@ -219,6 +239,7 @@ class SVBackendImpl:
                 ),
                 device=self.state.data.device,
             )
+        _verif_before = _verif.result_times(self.results) if _verif.enabled() else {}
         for callback in callbacks_for_current_time_step:
             callback(
                 self._config,
@@ -226,6 +247,15 @@ class SVBackendImpl:
                 self.state,
                 self._current_H,  # type: ignore[arg-type]
                 self.results,
+            )
+        if _verif.enabled():
+            _verif.emit(
+                "sv_obs",
+                k=step_idx,
+                t=norm_time,
+                due=[c.tag for c in callbacks_for_current_time_step],
+                before=_verif_before,
+                after=_verif.result_times(self.results),
             )
 
     def _save_statistics(self, step_idx: int) -> None:
@@ -246,4 +276,11 @@ class SVBackendImpl:
         for step in range(self.nsteps):
             self.step(step)
 
+        if _verif.enabled():
+            _verif.emit(
+                "sv_ret",
+                nsteps=self.nsteps,
+                atom_order=[str(q) for q in self.results.atom_order],
+                times=_verif.result_times(self.results),
+            )
         return self.results
